@@ -220,6 +220,7 @@ class Spec:
     nz: int = 0
     ode: Any = None         # list of nx E  (None => discrete)
     nxt: Any = None         # list of nx E  (set_next)
+    der_order: Any = None   # how set_der is called: None (declaration order) or 'reversed' (one call per state, reverse order)
     nxt_order: Any = None   # how set_next is called: None (one call per state, declaration order), 'reversed' (one call per state, reverse order), 'concat-reversed' (ONE call on vertcat of the states in reverse order)
     alg: Any = field(default_factory=list)       # list of nz E
     params: Any = field(default_factory=list)    # list of Sym
